@@ -375,6 +375,7 @@ def execute_plan(check, plan: dict, known=None) -> dict:
         "n_events": ctx.seq,
         "wall": wall,
         "events_head": ctx.events[:12],
+        "obs": canon(ctx.obs),
     }
 
 
